@@ -54,6 +54,53 @@ func lattice64(stake uint64) []uint64 {
 	return out
 }
 
+// refundHeightStream: the release height of a refund under every fork configuration (RefundManager.getRefundHeight
+// against `refundHeightOf`): all 16 flag/situation combinations, both miner types and a non-miner type, group counts 0..5
+// around the number of groups the remaining stake pays for, dismiss heights incl. duplicates, MaxUint64 ("never") and
+// MaxUint64-1 (wraps), heights around the reward period and around 50 (the Proposal011 subtraction wraps below it).
+func refundHeightStream(r *hx.Rng, run func(string) string, n int, st *genStats) {
+	nows := []uint64{0, 1, 49, 50, 51, 35999, 36000, 36001, 71999, 72000, 5000000, 1<<40 + 7}
+	for i := 0; i < n; i++ {
+		now := nows[r.Intn(len(nows))]
+		if r.Chance(1, 3) {
+			now = uint64(r.Intn(200000))
+		}
+		typ := r.Pick(0, 0, 0, 1, 1, 2)
+		k := r.Intn(6)
+		ds := make([]string, 0)
+		for j := 0; j < k; j++ {
+			var d uint64
+			switch r.Intn(8) {
+			case 0:
+				d = ^uint64(0)
+			case 1:
+				d = ^uint64(0) - 1
+			case 2:
+				d = ^uint64(0) - 50
+			case 3:
+				d = now
+			case 4:
+				d = 0
+			default:
+				d = now + uint64(r.Intn(100000))
+			}
+			ds = append(ds, strconv.FormatUint(d, 10))
+		}
+		dcsv := "."
+		if k > 0 {
+			dcsv = strings.Join(ds, ",")
+		}
+		left := uint64(r.Pick(0, 1, 399, 400, 401, 799, 800, 1200, 1999, 2000)) + uint64(r.Intn(2))*uint64(r.Intn(3))*400
+		b := func() int { return r.Intn(2) }
+		p012 := 0
+		if r.Chance(1, 5) {
+			p012 = 1
+		}
+		run(fmt.Sprintf("rheight %d %d %d %d %d %d %d %s", p012, b(), r.Pick(0, 0, 1), b(), now, left, typ, dcsv))
+		st.inc(fmt.Sprintf("rheight-type%d-groups%d", typ, k))
+	}
+}
+
 // latticeFamily: deterministic scenarios that run before anything random — a miner of each type with a small and a
 // larger stake, then ONE operation with a lattice amount: refund (transaction), add-stake, UNSTAKE opcode.
 // `rich` gives the payer 2^120 wei so that huge add-stake amounts are payable (correspondence only).
